@@ -399,6 +399,10 @@ func runCheck(prop, tier string, writeLock bool) int {
 			payload["reason"] = "the solver found a state satisfying the hypotheses and violating the clause"
 			confirmed, rep := tryReplay(g, e, o, cex, scratch)
 			payload["replay"] = rep
+			var fx Fixture
+			if loadJSON(fixturePath(e.fnName), &fx) == nil {
+				payload["package_dir"] = fx.PackageDir
+			}
 			if confirmed {
 				noInput = false
 			}
@@ -430,7 +434,7 @@ func runCheck(prop, tier string, writeLock bool) int {
 		b, _ := json.MarshalIndent(locks, "", " ")
 		os.WriteFile(lockPath, b, 0o644)
 		fmt.Printf("lock: %d clause-level obligations recorded for %s\n", len(names), prop)
-	} else {
+	} else if only == "" {
 		for _, n := range locks[prop] {
 			if !seenLock[n] {
 				// it may have failed (already reported) or vanished
